@@ -12,6 +12,7 @@ from workflows.runtime.types.ticks import TickAddEvent, TickIdleCheck, TickWaite
 IDLE_SNAPS = []     # dicts, appended at each idle publication
 DELIVERED = {}      # run_id -> {id(tick): tick} delivered to the run's mailbox and not yet processed
 RUNNERS = {}        # run_id -> the live _ControlLoopRunner (its .state is the live engine state)
+TICKLOG = []        # (run_id, tick, wall-clock reading) for every tick handed to _process_tick, in order
 _installed = False
 
 
@@ -19,6 +20,7 @@ def reset():
     IDLE_SNAPS.clear()
     DELIVERED.clear()
     RUNNERS.clear()
+    TICKLOG.clear()
 
 
 def install():
@@ -53,6 +55,8 @@ def install():
 
     async def _process_tick(self, tick):
         RUNNERS[self.adapter.run_id] = self
+        import time as _t
+        TICKLOG.append((self.adapter.run_id, tick, _t.time()))
         DELIVERED.get(self.adapter.run_id, {}).pop(id(tick), None)
         return await orig_tick(self, tick)
 
